@@ -113,7 +113,8 @@ def bug_switch_check(name, module, cfg, switch, expect, timeout=300):
     open(tmp, "w").write(txt.replace(f"{switch} = FALSE", f"{switch} = TRUE"))
     rc, out, wall = tlc(name, module, tmp, workers=8, timeout=timeout)
     m = re.search(r"(Invariant (\w+) is violated|Action property (\w+) is violated|"
-                  r"Temporal properties were violated|Deadlock reached)", out)
+                  r"Temporal properties were violated|Temporal property (\w+) was violated|"
+                  r"Deadlock reached)", out)
     found = m.group(0) if m else None
     gen, dist = parse_tlc_stats(out)
     if not found:
@@ -158,7 +159,9 @@ def run_driver_parallel(driver, outdir, seed0, runs, nproc, args, deadline=600):
                 raise ToolError(f"driver produced no results: {' '.join(cmd)}\n{r.stdout[-2000:]}")
             res = json.load(open(res_path))
             records += res["runs"]
-            if res.get("aborted"):
+            if res.get("aborted") and driver in ("sched", "live"):
+                left = 0
+            elif res.get("aborted"):
                 # a hang: the process dumped what it had and exited; continue after that seed
                 done = len(res["runs"])
                 cur += done
@@ -245,6 +248,8 @@ def write_evidence(prop, tier, seed, level, coverage, wall, violations, assumpti
 
 CORE = "MC_RainCore.tla"
 DUR = "MC_RainDur.tla"
+CONC = "MC_RainConc.tla"
+CONC_TRACE = ("RainConc_Trace.tla", "RainConc_Trace.cfg")
 Q1 = "MC_RainCore_q1.cfg"
 
 PROPS = {
@@ -300,6 +305,28 @@ PROPS = {
                    one_per_proc=True),
               dict(driver="fault", args=["--nops", "14", "--positions", "40", "--large"], quick=2,
                    thorough=20, one_per_proc=True)]),
+    "C05": dict(
+        design=[(CONC, ["MC_RainConc_small.cfg"], ["MC_RainConc_small.cfg"])],
+        switches=[("Bug_GetLoadsMemAfterUnlock", CONC, "MC_RainConc_small.cfg", "Linearizable"),
+                  ("Bug_PublishEarly", CONC, "MC_RainConc_small.cfg", "Linearizable")],
+        trace=CONC_TRACE,
+        work=[dict(driver="sched", args=["--all"], quick=2, thorough=12, final_rc3=True)]),
+    "C06": dict(
+        design=[(CONC, ["MC_RainConc_small.cfg"], ["MC_RainConc_small.cfg"])],
+        switches=[("Bug_PublishEarly", CONC, "MC_RainConc_small.cfg", None),
+                  ("Bug_SnapshotUnlocked", CONC, "MC_RainConc_small.cfg", None)],
+        trace=CONC_TRACE,
+        work=[dict(driver="sched", args=["--all"], quick=2, thorough=12, final_rc3=True)]),
+    "C09": dict(
+        design=[(CONC, ["MC_RainConc_small.cfg"], ["MC_RainConc_small.cfg"])],
+        switches=[("Bug_NoNotify", CONC, "MC_RainConc_small.cfg", "AllWritersReturn")],
+        work=[dict(driver="live", args=["--ops", "150"], quick=16, thorough=400, trace=CONC_TRACE,
+                   final_rc3=True),
+              dict(driver="sched", args=["--all"], quick=1, thorough=6, trace=CONC_TRACE,
+                   final_rc3=True),
+              dict(driver="hist", args=["--nops", "70", "--per-file", "6", "--descriptors",
+                                        "--compact-bias", "1", "--profile", "fill"],
+                   quick=24, thorough=600)]),
     "C16": dict(
         design=[(DUR, ["MC_RainDur_small.cfg"], ["MC_RainDur_small.cfg", "MC_RainDur_big.cfg"])],
         switches=[("Bug_ReuseAfterTornTail", DUR, "MC_RainDur_small.cfg", None)],
@@ -310,7 +337,7 @@ PROPS = {
 }
 
 PROP_SEED_BASE = {"C01": 1000, "C03": 3000, "C07": 7000, "C10": 10000, "C11": 11000,
-                  "C02": 2000, "C16": 16000, "C08": 8000}
+                  "C02": 2000, "C16": 16000, "C08": 8000, "C05": 5000, "C06": 6000, "C09": 9000}
 
 
 def check_prop(prop, tier, seed):
@@ -335,8 +362,9 @@ def check_prop(prop, tier, seed):
 
     # (B) drive the real code, validate traces
     nproc = min(12, NCPU)
-    recs, files = [], []
+    recs = []
     extra = {}
+    groups = {}
     for wi, w in enumerate(conf["work"]):
         runs = w[tier]
         outdir = f"{OUT}/{prop}-{tier}-{wi}"
@@ -344,7 +372,9 @@ def check_prop(prop, tier, seed):
         r = run_driver_parallel(w["driver"], outdir, seed0, runs, min(nproc, runs), w["args"],
                                 deadline=1800 if tier == "quick" else 14400)
         recs += r
-        files += sorted(glob.glob(f"{outdir}/p*/part*/trace_*.ndjson"))
+        tr = w.get("trace") or conf.get("trace") or ("RainCore_Trace.tla", "RainCore_Trace.cfg")
+        groups.setdefault(tr, [])
+        groups[tr] += sorted(glob.glob(f"{outdir}/p*/part*/trace_*.ndjson"))
         log(f"[{prop}] {w['driver']}: {len(r)} runs executed")
         if w["driver"] == "fault":
             refs = [x for x in r if x.get("status") == "reference"]
@@ -355,8 +385,15 @@ def check_prop(prop, tier, seed):
         if w["driver"] == "crash":
             for k in ("journal_ops", "probes", "torn_probes", "gen2_probes"):
                 extra["crash_" + k] = extra.get("crash_" + k, 0) + sum(x["crash"][k] for x in r)
-    tmod, tcfg = conf.get("trace", ("RainCore_Trace.tla", "RainCore_Trace.cfg"))
-    vruns, rejects, tstates = validate_traces(files, tmod, tcfg, nproc, prop)
+        if w["driver"] == "sched":
+            extra["forced_schedules"] = extra.get("forced_schedules", 0) + len(r)
+            extra["schedules_where_victim_parked"] = extra.get("schedules_where_victim_parked", 0) + sum(1 for x in r if x.get("parked"))
+    vruns, rejects, tstates = [], [], 0
+    for (tmod, tcfg), files in groups.items():
+        v, rj, ts = validate_traces(files, tmod, tcfg, nproc, prop)
+        vruns += v
+        rejects += rj
+        tstates += ts
     return finish(prop, tier, seed, t0, design, switches, recs, vruns, rejects, tstates, None,
                   extra_cov=extra)
 
@@ -501,13 +538,20 @@ def replay(path):
         if rp.get("large"):
             cmd.append("--large")
         r = sh(cmd, timeout=900)
+    elif rp["driver"] == "sched":
+        r = sh([BIN, "sched", "--seed", str(rp["seed"]), "--runs", "1", "--all", "--scenario",
+                rp["scenario"], "--out", outdir], timeout=900)
+    elif rp["driver"] == "live":
+        r = sh([BIN, "live", "--seed", str(rp["seed"]), "--runs", "1", "--ops", str(rp.get("ops", 150)),
+                "--out", outdir], timeout=900)
     else:
         r = sh([BIN, rp["driver"], "--replay", path, "--out", outdir], timeout=900)
     log(r.stdout[-2000:])
     files = sorted(glob.glob(f"{outdir}/trace_*.ndjson"))
     spec = {"hist": ("RainCore_Trace.tla", "RainCore_Trace.cfg"),
             "crash": ("RainCore_Trace.tla", "RainCore_Trace.cfg"),
-            "fault": ("RainCore_Trace.tla", "RainCore_Trace.cfg")}[rp["driver"]]
+            "fault": ("RainCore_Trace.tla", "RainCore_Trace.cfg"),
+            "sched": CONC_TRACE, "live": CONC_TRACE}[rp["driver"]]
     vruns, rejects, _ = validate_traces(files, spec[0], spec[1], 2, "replay")
     for vr in vruns:
         log(json.dumps(vr)[:4000])
